@@ -19,7 +19,8 @@ RULE = ("A case is a history: 1-3 fake nodes (optionally with every stream id ta
         "per page of a 1-3 page result, the behaviour of the server for each successive attempt: silent, answer after the "
         "deadline, answer after a fraction of the timeout, one of 7 retryable errors, close the connection.  Later pages are "
         "fetched after a generated pause through ResponseFuture.start_fetching_next_page, ResultSet.fetch_next_page or "
-        "iteration from a client thread.  Oracle: on the virtual clock, timeout + 0.045 s (the driver's own 3 x 0.01 s re-arm "
+        "iteration from a client thread; a later-page fetch that FAILED (error, connection loss, timeout) is tried again "
+        "0-2 times, each try a request of its own.  Oracle: on the virtual clock, timeout + 0.045 s (the driver's own 3 x 0.01 s re-arm "
         "slack) after each (page) request started the future has an outcome; an OperationTimedOut is never delivered before "
         "the timeout has elapsed since that (page) request started.  Non-trivial: at least one attempt met a silent or late "
         "server.  Distinct by case digest.")
@@ -47,7 +48,14 @@ def s_case(gran):
     page = st.lists(action, min_size=0, max_size=3)
     good_page = st.tuples(st.lists(st.tuples(st.just("err"), st.sampled_from(sorted(F.ERRORS))).map(list), max_size=1),
                           st.just([["rows", 0.0]])).map(lambda t: t[0] + t[1])
+    failing = st.one_of(st.tuples(st.just("err"), st.sampled_from(sorted(F.ERRORS))).map(list), st.just(["close"]),
+                        st.just(["silent"]))
+    # a later page whose fetch fails (error the policy rethrows once its script is used up / connection loss /
+    # timeout) and whose retried fetch meets a silent or late server
+    failing_page = st.tuples(failing, st.lists(action, max_size=1)).map(lambda t: [t[0]] + t[1])
     pages = st.one_of(
+        st.tuples(good_page, failing_page).map(list),
+        st.tuples(good_page, good_page, failing_page).map(list),
         st.lists(page, min_size=1, max_size=1),
         st.tuples(good_page, page).map(list),
         st.tuples(good_page, good_page, page).map(list),
@@ -65,6 +73,7 @@ def s_case(gran):
         "decisions": st.lists(dec, max_size=4),
         "pages": pages,
         "gap": st.sampled_from([0.0, 0.5, 2.0]),
+        "refetch": st.sampled_from([0, 1, 1, 2]),
         "access": st.sampled_from(["future", "manual", "iterate"]),
         "tape": st.lists(st.integers(0, 3), max_size=30 if gran == "locks" else 6),
         "gran": st.just(gran),
@@ -222,6 +231,7 @@ def _run(case, ctx, sim):
         return (kind, val)
 
     fut_box = {}
+    refetched = {"n": 0}
 
     def outs_fut():
         return fut_box.get("fut")
@@ -257,11 +267,13 @@ def _run(case, ctx, sim):
         for _w in range(2 * len(pages) + 4):
             if actor.done:
                 break
-            before = fetches["n"]
+            before = (fetches["n"], len(outs[0].events))
             sim.advance(t + EPS)
             if actor.done:
                 break
-            if fetches["n"] == before:
+            # progress = a new page fetch was started or an outcome was delivered to the future (the client
+            # thread itself may sit in pool.borrow_connection for 2 s per busy host after the outcome exists)
+            if (fetches["n"], len(outs[0].events)) == before:
                 ctx.fail(["C15.unbounded", "later-page"],
                          "iteration from a client thread made no progress within timeout %s + %.3f: the fetch of page %d "
                          "has no outcome (attempts per page %r)" % (t, EPS, max(seen_pages), pos))
@@ -271,9 +283,21 @@ def _run(case, ctx, sim):
             ctx.label("iterate:finished:%s" % ("error" if "exc" in actor.box else "rows"))
     else:
         rs = None
-        while res is not None and res[0] == "ok" and fut.has_more_pages and page + 1 < len(pages):
+        refetch_left = case.get("refetch", 0)
+        while res is not None and fut.has_more_pages:
+            if res[0] == "ok":
+                if page + 1 >= len(pages):
+                    break
+                page += 1
+            else:
+                # the fetch of a later page FAILED (server error rethrown, connection lost, timed out): the
+                # paging state of the last delivered page is still there and the application tries the fetch
+                # again -- a request of its own, with the full timeout
+                if page == 0 or refetch_left <= 0:
+                    break
+                refetch_left -= 1
+                refetched["n"] += 1
             sim.advance(case["gap"] * t)
-            page += 1
             start = sim.world.now
             if case["access"] == "manual":
                 if rs is None:
@@ -293,6 +317,8 @@ def _run(case, ctx, sim):
             ctx.label("later-page-silent-or-late")
     if rlog:
         ctx.label("retry-consulted")
+    if refetched["n"]:
+        ctx.label("refetch-after-failed-fetch")
     ctx.nontrivial(met["silent"] + met["late"] >= 1)
 
 
